@@ -19,6 +19,10 @@ type tlCmd struct {
 	Max  time.Duration `json:"max_pause,omitempty"`
 	Msg  string        `json:"msg,omitempty"`
 	Gen  int           `json:"gen,omitempty"`
+	// Slow (deploy only): the new targets need this long for their first probe, so the deploy is
+	// still waiting for them when the next command (a pause, stop, resume or rollout command) is
+	// issued and acknowledged; the new targets take over at At+Slow
+	Slow time.Duration `json:"slow,omitempty"`
 }
 
 type tlReq struct {
@@ -65,7 +69,8 @@ func (s *tlState) apply(c tlCmd) {
 func tlStateAt(cmds []tlCmd, at time.Duration, inclusive bool) tlState {
 	s := tlState{State: "running", Active: 1}
 	for _, c := range cmds {
-		if c.At < at || (inclusive && c.At == at) {
+		t := c.At + c.Slow // a slow deploy takes effect when its targets have become healthy
+		if t < at || (inclusive && t == at) {
 			s.apply(c)
 		}
 	}
@@ -169,8 +174,19 @@ func tlGenCmds(rng *rand.Rand, n int, kinds []string, msgs []string) []tlCmd {
 		st.apply(c)
 		cmds = append(cmds, c)
 	}
+	// some deploys are slow, unless the next command is another deploy of some kind (overlapping
+	// deploys of one service are C17's subject and have no fixed order of taking effect)
+	for i := range cmds {
+		next := ""
+		if i+1 < len(cmds) {
+			next = cmds[i+1].Kind
+		}
+		if cmds[i].Kind == "deploy" && next != "deploy" && next != "rollout-deploy" && rng.IntN(3) == 0 {
+			cmds[i].Slow = 1500*time.Millisecond + 50*time.Microsecond
+		}
+	}
 	// final resume so that everything held is released before the scenario ends
-	cmds = append(cmds, tlCmd{At: time.Duration(n+1) * time.Second, Kind: "resume"})
+	cmds = append(cmds, tlCmd{At: time.Duration(n+2) * time.Second, Kind: "resume"})
 	return cmds
 }
 
@@ -219,6 +235,21 @@ func TestC07(t *testing.T) {
 	}
 }
 
+// tlSlowFirstProbe makes the first probe of each target take d (the later ones answer at once).
+func tlSlowFirstProbe(w *World, names []string, d time.Duration) {
+	if d <= 0 {
+		return
+	}
+	for _, n := range names {
+		w.Target(n).Probe = func(k int, at time.Duration) ProbeAct {
+			if k == 0 {
+				return ProbeAct{Status: 200, Delay: d}
+			}
+			return ProbeAct{Status: 200}
+		}
+	}
+}
+
 func tlBody(id string, n int) []byte {
 	if n == 0 {
 		return nil
@@ -257,7 +288,9 @@ func c07Run(t *testing.T, run *Run, sc c07Scenario) {
 			case "stop":
 				rec = w.Stop(svc, time.Second, c.Msg)
 			case "deploy":
-				rec = w.Deploy(svc, mk("a", c.Gen), DefSO, to, 5*time.Second, time.Second)
+				names := mk("a", c.Gen)
+				tlSlowFirstProbe(w, names, c.Slow)
+				rec = w.Deploy(svc, names, DefSO, to, 5*time.Second, time.Second)
 			case "rollout-deploy":
 				rec = w.RolloutDeploy(svc, mk("r", c.Gen), 5*time.Second, time.Second)
 			case "rollout-set":
@@ -351,7 +384,7 @@ func c07Run(t *testing.T, run *Run, sc c07Scenario) {
 					after := tlStateAt(sc.Cmds, e.At, true)
 					redeployed := false
 					for _, c := range sc.Cmds {
-						if c.Kind == "deploy" && c.At > r.At && c.At < e.At {
+						if c.Kind == "deploy" && c.At+c.Slow > r.At && c.At < e.At {
 							redeployed = true
 						}
 					}
@@ -417,6 +450,13 @@ func c07Run(t *testing.T, run *Run, sc c07Scenario) {
 	}
 	run.Count("requests_checked", len(sc.Reqs))
 	run.Count("held_requests", held)
+	for _, d := range sc.Cmds {
+		for _, c := range sc.Cmds {
+			if d.Slow > 0 && c.At > d.At && c.At < d.At+d.Slow {
+				run.Count("commands_acknowledged_during_a_deploy:"+c.Kind, 1)
+			}
+		}
+	}
 	if held > 0 || sc.Placed {
 		var ks []string
 		for _, k := range []string{"fwd", "503", "504", "proxy200"} {
